@@ -349,6 +349,7 @@ theorem evalOp_refine (st : St) (hM : MapsOK K st.store) (op : Op) (hop : OpOK K
   | aForEachPair a b f => rfl
   | mForEachF m f => rfl
   | deq a b => simp only [evalOp, deepEq_py_eq_spec]
+  | aSort a => rfl
   | call f k first => simp only [evalOp, callFn_eq]
   | call2 t k1 k2 =>
     simp only [evalOp, callFn_eq]
